@@ -252,6 +252,12 @@ class Ext:
                     snaps = [snap2d(fam, s.ti, o) if isinstance(s, C2D) else None for s, o in zip(specs, objs)]
                     rs = snap2d(fam, self.result_ti(e, specs), r) if (r is not None and r is not NotImplemented and not isinstance(r, (int, float, bool))) else repr(r).encode()
                     return ("ok", rs, snaps), r, objs
+                for s_ in specs:
+                    if isinstance(s_, C2D) and s_.carrier is not None:
+                        _d, got_ = read2d(fam, s_.build())
+                        if [[H.pack(s_.ti, [x]) for x in row] for row in got_] != [[H.pack(s_.ti, [x]) for x in row] for row in s_.vals]:
+                            self.violate("component-property", e, "the channel array Color4fArray2D.%s does not hold the values stored in that "
+                                         "channel" % "rgba"[s_.carrier % 4], {"dims": dims})
                 n = dims[0] * dims[1]
                 res, disp = self.with_pools(call, n)
                 summ["runs"] += len(res)
